@@ -1227,3 +1227,138 @@ def large_program(rng, pid, kind, hint):
            {"op": "close", "h": "c"},
            {"op": "unmount"}]
     return {"id": pid, "cfg": cfg, "ops": ops, "origin": "large:%s:%s" % (kind, hint)}
+
+
+# ------------------------------------------------------------------------------------------------
+# C17: arbitrary directory contents
+
+def _chk(raw):
+    c = 0
+    for b in raw:
+        c = (((c & 1) << 7) + (c >> 1) + b) & 0xFF
+    return c
+
+
+def sfn_slot(raw, attr=0x20, nt=0, cl=0, size=0, dates=(0x5021, 0x6000, 0, 0x5021, 0x6000, 0x5021)):
+    s = list(raw[:11]) + [attr, nt, dates[2]]
+    s += [dates[1] & 255, dates[1] >> 8, dates[0] & 255, dates[0] >> 8, dates[5] & 255, dates[5] >> 8, (cl >> 16) & 255, (cl >> 24) & 255,
+          dates[4] & 255, dates[4] >> 8, dates[3] & 255, dates[3] >> 8, cl & 255, (cl >> 8) & 255]
+    s += [size & 255, (size >> 8) & 255, (size >> 16) & 255, (size >> 24) & 255]
+    return s
+
+
+def lfn_slot(order, chk, units13, attr=0x0F, ty=0, cl=0):
+    u = list(units13) + [0xFFFF] * 13
+    s = [order]
+    for k in range(5):
+        s += [u[k] & 255, u[k] >> 8]
+    s += [attr, ty, chk]
+    for k in range(5, 11):
+        s += [u[k] & 255, u[k] >> 8]
+    s += [cl & 255, cl >> 8]
+    for k in range(11, 13):
+        s += [u[k] & 255, u[k] >> 8]
+    return s
+
+
+def lfn_run_slots(name_units, chk):
+    n = (len(name_units) + 12) // 13
+    p = list(name_units)
+    if len(p) % 13:
+        p.append(0)
+        while len(p) % 13:
+            p.append(0xFFFF)
+    out = []
+    for k in range(n - 1, -1, -1):
+        out.append(lfn_slot((k + 1) | (0x40 if k == n - 1 else 0), chk, p[k * 13:k * 13 + 13]))
+    return out
+
+
+def dir_cases(rng, quick=True):
+    """list of directories (lists of 32-byte slots)"""
+    dirs = []
+    raw = [ord(c) for c in "TARGET  TXT"]
+    good = _chk(raw)
+    tail = [sfn_slot([ord(c) for c in "AFTER   BIN"], size=3)]
+    followers = [
+        [sfn_slot(raw)],
+        [sfn_slot(raw, attr=0x10)],
+        [sfn_slot([ord(c) for c in "LABEL      "], attr=0x08)],
+        [[0xE5] + sfn_slot(raw)[1:]],
+        [],  # END right after the run
+    ]
+    orders = [0, 1, 2, 3, 4, 20, 21, 63]
+    one = []
+    for o in orders:
+        for last in (0, 0x40):
+            for ck in (good, good ^ 0x5A):
+                for dele in (False, True):
+                    s = lfn_slot(o | last, ck, [ord("a") + (o % 26)] + [0, ] + [0xFFFF] * 11)
+                    if dele:
+                        s = [0xE5] + s[1:]
+                    one.append(s)
+    # runs of length 1 and 2 exhaustively, length 3 sampled (quick) or exhaustively (thorough)
+    for a in one:
+        for f in followers:
+            dirs.append([a] + f + tail)
+    pairs = [(a, b) for a in one for b in one]
+    if quick:
+        pairs = rng.sample(pairs, 1500)
+    for a, b in pairs:
+        dirs.append([a, b] + rng.choice(followers) + tail)
+    triples = 3000 if quick else 120000
+    for _ in range(triples):
+        dirs.append([rng.choice(one), rng.choice(one), rng.choice(one)] + rng.choice(followers) + tail)
+    # well-formed runs of every length 1..20 (260 units at 20 slots), with and without terminator
+    for n in ([1, 2, 13, 14, 19, 20] if quick else range(1, 21)):
+        for ln in (n * 13, n * 13 - 1, n * 13 - 12):
+            name = [ord("A") + (k % 26) for k in range(ln)]
+            dirs.append(lfn_run_slots(name, good) + [sfn_slot(raw)] + tail)
+    # unpaired surrogates, NUL in the middle, 0xFFFF characters, garbage before a complete run
+    for name in ([0xD800, 0x61], [0x61, 0xDC00], [0xD800, 0xD800], [0x61, 0, 0x62], [0xFFFF, 0x61], [0x61, 0xFFFF], [0xFFFF] * 13, [0] * 13, [0x61] * 13 + [0xFFFF]):
+        dirs.append(lfn_run_slots(name, good) + [sfn_slot(raw)] + tail)
+        dirs.append([lfn_slot(0x42, good, [0x7A] * 13)] + lfn_run_slots(name, good) + [sfn_slot(raw)] + tail)
+    # every value of every byte of a long-name slot and of a short slot, in three contexts
+    base_l = lfn_run_slots([ord(c) for c in "target-long.txt"], good)
+    base_s = sfn_slot(raw, dates=(0x5021, 0x6000, 50, 0x5021, 0x6000, 0x5021))
+    vals = range(256) if not quick else list(range(0, 256, 5)) + [0xE5, 0x0F, 0x1F, 0x2F, 0x3F, 0x40, 0x41, 0x42, 0xFF, 0x05, 0x20, 0x2E]
+    for pos in range(32):
+        for v in vals:
+            m = list(base_l[0])
+            m[pos] = v
+            dirs.append([m, base_l[1], base_s] + tail)                       # first slot of a two-slot run
+            m2 = list(base_l[1])
+            m2[pos] = v
+            dirs.append([base_l[0], m2, base_s] + tail)                      # second slot
+            ms = list(base_s)
+            ms[pos] = v
+            dirs.append(base_l + [ms] + tail)                                # the short slot after a valid run
+            if not quick or v % 3 == 0:
+                dirs.append([ms] + tail)                                     # a short slot alone
+    # random slot soup
+    for _ in range(2000 if quick else 200000):
+        d = []
+        for _k in range(rng.randrange(1, 12)):
+            r = rng.random()
+            if r < 0.35:
+                s = lfn_slot(rng.choice(orders + [0x41, 0x42, 0x43, 0x81, 0x22]), rng.choice([good, rng.randrange(256)]),
+                             [rng.choice([0x41, 0, 0xFFFF, 0xD800, 0x20AC, rng.randrange(65536)]) for _ in range(13)],
+                             attr=rng.choice([0x0F, 0x0F, 0x0F, 0x1F, 0x3F, 0x4F, 0x8F]), ty=rng.choice([0, 0, 1, 0x3F]), cl=rng.choice([0, 0, 5]))
+            elif r < 0.7:
+                nm = [rng.choice([0x41, 0x5A, 0x20, 0x2E, 0x05, 0xE5, 0x7E, 0x31, 0x80, 0xFF, 0x2A, 0x61]) for _ in range(11)]
+                s = sfn_slot(nm if rng.random() < 0.5 else raw, attr=rng.choice([0, 0x10, 0x20, 0x08, 0x18, 0x28, 0x01, 0x16, 0xC0 | 0x20]), nt=rng.randrange(256), size=rng.randrange(1 << 31) if rng.random() < 0.3 else 0,
+                             dates=tuple(rng.randrange(65536) if i != 2 else rng.randrange(256) for i in range(6)))
+            elif r < 0.85:
+                s = [rng.randrange(256) for _ in range(32)]
+                s[20] = s[21] = s[26] = s[27] = 0     # cluster pointers stay valid (0 = none)
+                if s[0] == 0:
+                    s[0] = 1
+            else:
+                s = [0xE5] + [rng.randrange(256) for _ in range(31)]
+            if s[11] & 0x0F != 0x0F:
+                s[20] = s[21] = s[26] = s[27] = 0
+                if s[11] & 0x10:
+                    s[11] &= ~0x10 & 0xFF     # no directory entries without a valid cluster
+            d.append(s)
+        dirs.append(d)
+    return dirs
